@@ -139,6 +139,21 @@ def _cblist(ctx, cfg):
 
         def __len__(self):
             return 0
+    # ... and what a handler returns is nobody's business: handlers returning truthy values hide nothing from later entries
+    class Ret(Rec):
+        def __getattribute__(self, n):
+            if n.startswith("on_"):
+                return lambda *a: (log.append((object.__getattribute__(self, "tag"), n, a)), "done")[1]
+            return object.__getattribute__(self, n)
+    for first in (Ret("r0"), Ret("r1")):
+        cl = CallbackList([first, Rec("plain"), Ret("r2"), Rec("last")])
+        S = St(False)
+        for ev, args in (("on_train_start", (S,)), ("on_epoch_start", (S, 4)), ("on_batch_start", (S, 4, 2)), ("on_batch_end", (S, 4, 2)),
+                         ("on_epoch_end", (S, 4)), ("on_train_end", (S,))):
+            del log[:]
+            r = getattr(cl, ev)(*args)
+            ctx.holds("CallbackList.%s reaches every callback whatever the handlers of earlier ones return" % ev,
+                      [x[0] for x in log] == [first.tag, "plain", "r2", "last"], str([x[0] for x in log]))
     o0, o1 = Odd("o0"), Odd("o1")
     for how in ("constructor", "append", "insert", "concatenation"):
         if how == "constructor":
